@@ -24,8 +24,8 @@ REPLAY_DIR = os.path.join(VERIF, "replay", "out")
 # level per property is decided from the obligation kinds actually run:
 # all K-full/K-contract/V => proof, any K-bounded => model_checking-style "other"? see evidence()
 
-QUICK_HARNESS_TIMEOUT = int(os.environ.get("VERIF_HARNESS_TIMEOUT", "900"))
-THOROUGH_HARNESS_TIMEOUT = int(os.environ.get("VERIF_HARNESS_TIMEOUT_THOROUGH", "2400"))
+QUICK_HARNESS_TIMEOUT = int(os.environ.get("VERIF_HARNESS_TIMEOUT", "2400"))
+THOROUGH_HARNESS_TIMEOUT = int(os.environ.get("VERIF_HARNESS_TIMEOUT_THOROUGH", "9000"))
 
 
 def load_json(p, default):
